@@ -17,6 +17,8 @@ inductive STrig
 deriving Repr, Inhabited
 
 inductive SAct
+  | direct (a : SAct)       -- the `World`-level form of a sender, called in-line by an exclusive system (`world.flush()` first)
+  | flush                   -- `world.flush()` in the middle of an exclusive body
   | spawn
   | spawnSys (d : Nat)
   | on (mode : Mode) (d : Nat) (trigs : List STrig)
@@ -112,6 +114,10 @@ def parseAct (toks : List String) : Option SAct :=
   | "once" :: d :: ts => do pure (.once (← d.toNat?) (← parseTrigs ts))
   | ["revoke", t] => (parseIdx 't' t).map .revoke
   | ["run", s] => (parseRef s).map .run
+  | ["flush"] => some .flush
+  | ["dsysevent", s, ty, pid] => do pure (.direct (.sysEvent (← parseRef s) (← ty.toNat?) (← pid.toNat?)))
+  | ["dbroadcast", ty, pid] => do pure (.direct (.broadcast (← ty.toNat?) (← pid.toNat?)))
+  | ["dentevent", e, ty, pid] => do pure (.direct (.entityEvent (← parseRef e) (← ty.toNat?) (← pid.toNat?)))
   | ["sysevent", s, ty, pid] => do pure (.sysEvent (← parseRef s) (← ty.toNat?) (← pid.toNat?))
   | ["broadcast", ty, pid] => do pure (.broadcast (← ty.toNat?) (← pid.toNat?))
   | ["entevent", e, ty, pid] => do pure (.entityEvent (← parseRef e) (← ty.toNat?) (← pid.toNat?))
@@ -243,6 +249,8 @@ def resolveTrigs (s : St) (ts : List STrig) : Option (List Trig) := ts.mapM (res
 
 /-- Resolves a scripted action; `none` = it names something that does not exist (yet): the action is skipped. -/
 def resolveAct (sc : Scenario) (s : St) : SAct → Option Act
+  | .direct a => resolveAct sc s a
+  | .flush => some .flushWorld
   | .spawn => some .spawn
   | .spawnSys d => (sc.defs[d]?).map (fun df => Act.spawnSys d df.excl)
   | .on m d ts => do pure (Act.on m d (← sc.defs[d]?).excl (← resolveTrigs s ts))
@@ -271,15 +279,20 @@ def resolveAct (sc : Scenario) (s : St) : SAct → Option Act
   | .wrRemove wr ts => if wr < sc.wrs.length then (resolveTrigs s ts).map (Act.wrRemove wr) else none
   | .wrRun wr => if wr < sc.wrs.length then some (.wrRun wr) else none
 
-/-- The `i`-th call of a scripted action list: action `j` occupies slots `3j` (marker⁺), `3j+1`, `3j+2` (marker⁻). -/
+/-- The `i`-th call of a scripted action list: action `j` occupies slots `5j` (marker⁺), `5j+1`, `5j+2` (the action),
+    `5j+3`, `5j+4` (marker⁻). Slots `5j+1` and `5j+3` are a `world.flush()` around an in-line `World`-level sender
+    (`direct`; only an exclusive body can make one — elsewhere the flush is nothing) and nothing otherwise. -/
 def scriptAt (sc : Scenario) (s : St) (script : List SAct) (owner run i : Nat) : Option Act :=
-  let j := i / 3
+  let j := i / 5
   match script[j]? with
   | none => none
   | some a =>
-    if i % 3 = 0 then some (.marker { plus := true, owner := owner, run := run, act := j })
-    else if i % 3 = 2 then some (.marker { plus := false, owner := owner, run := run, act := j })
-    else some ((resolveAct sc s a).getD .nop)
+    if i % 5 = 0 then some (.marker { plus := true, owner := owner, run := run, act := j })
+    else if i % 5 = 4 then some (.marker { plus := false, owner := owner, run := run, act := j })
+    else if i % 5 = 2 then some ((resolveAct sc s a).getD .nop)
+    else match a with
+      | .direct _ => some .flushWorld
+      | _ => some .nop
 
 def indexOf? (l : List Nat) (x : Nat) : Option Nat := findIdx' (· == x) l 0
 
